@@ -260,7 +260,7 @@ func (ex *Exec) initGhost(st *State) {
 		"G!donechan": ii, "G!ctxerr": ii, "G!out!#src": ii, "G!out!#by": ii,
 		"G!cb#len": "Int", "G!cb!ret": ii, "G!cb!fn": ii, "G!cb!arg0$Int": ii, "G!cb!arg1$String": arr("Int", "String"),
 		"G!push#len": "Int", "G!push!msg": ii, "G!push!src": ii, "G!pushedat": ii, "G!msgline": arr("Int", "String"), "G!reassstream": ii,
-		"G!lastrecv": "Int", "G!recvd!String": arr("Int", arr("Int", "String")), "G!recvd!Int": arr("Int", ii), "G!tickperiod": ii, "G!tickerof": ii, "G!rdlast": "Int", "G!rdcount": "Int", "G!rdrec": ii, "G!rdpos": ii, "G!rdstream": arr("Int", arr("Int", "String")), "G!rdlasterr": ii, "G!rdsrc": ii,
+		"G!lastrecv": "Int", "G!recvd!String": arr("Int", arr("Int", "String")), "G!recvd!Int": arr("Int", ii), "G!tickperiod": ii, "G!tickerof": ii, "G!rdgood": ii, "G!dirent_name": arr("Int", "String"), "G!dirent_isdir": arr("Int", "Bool"), "G!rdlast": "Int", "G!rdcount": "Int", "G!rdrec": ii, "G!rdpos": ii, "G!rdstream": arr("Int", arr("Int", "String")), "G!rdlasterr": ii, "G!rdsrc": ii,
 	} {
 		st.region(name, sort)
 	}
